@@ -1,8 +1,79 @@
 From Coq Require Import List NArith Bool.
 Import ListNotations.
-Require Import MV.C09.Model MV.C09.Spec MV.C09.Exec.
+Require Import MV.C09.Model MV.C09.Spec MV.C09.Exec MV.C09.Inv MV.C09.Abs MV.C09.Safety MV.C09.Render
+               MV.C09.Conserve MV.C09.Sound MV.C09.Final.
 Open Scope N_scope.
 Require Import MV.C09.Properties.
 
-Check (C09_placeholder : True).
-Print Assumptions C09_placeholder.
+Check (C09_new_establishes_invariant : forall mx l, mx < two32 ->
+  exists w, new mx l = Ok w /\ Winv w /\ max w = mx /\ lp w = l).
+Print Assumptions C09_new_establishes_invariant.
+Check (C09_total : forall e w o, fx e = all_fixed -> Winv w ->
+  exists w' x, step e w o = Ok (w', x) /\ x <> OPanic /\ Winv w' /\ max w' = max w /\ lp w' = lp w).
+Print Assumptions C09_total.
+Check (C09_total_sequences : forall e ops, fx e = all_fixed -> forall w, Winv w ->
+  ~ In OPanic (run e w ops)).
+Print Assumptions C09_total_sequences.
+Check (C09_one_output_per_operation : forall e ops, fx e = all_fixed -> forall w, Winv w ->
+  length (run e w ops) = length ops).
+Print Assumptions C09_one_output_per_operation.
+Check (C09_len_bound : forall e ops, fx e = all_fixed -> forall w a ps p,
+  Winv w -> In (OPayloads a ps) (run e w ops) -> In p ps ->
+  exists body, p = frame (lp w) body /\ len body <= max w).
+Print Assumptions C09_len_bound.
+Check (C09_framing : forall c w ops a ps p,
+  fx (c_env c) = all_fixed -> Winv w -> max w = c_max c -> lp w = c_lp c -> c_max c < two32 ->
+  In (OPayloads a ps) (run (c_env c) w ops) -> In p ps ->
+  exists body, unframe c p = Some body /\ p = frame (c_lp c) body).
+Print Assumptions C09_framing.
+Check (C09_drain_yields_committed : forall e w fs k, fx e = all_fixed -> Rep w fs ->
+  exists w', step e w (Drain k)
+             = Ok (w', OPayloads (len fs) (firstn (drain_count k fs) (map (frame (lp w)) fs))) /\
+             Rep w' [] /\ max w' = max w /\ lp w' = lp w).
+Print Assumptions C09_drain_yields_committed.
+Check (C09_point_conservation : forall c w fs o,
+  fx (c_env c) = all_fixed -> Rep w fs -> max w = c_max c -> is_write o -> values_nonempty o = true ->
+  exists w' pw pd chunks,
+    step (c_env c) w o = Ok (w', OWrite pw pd) /\
+    Rep w' (fs ++ map (fun ch => render (expect c o ch)) chunks) /\
+    Forall (fun ch => ch <> []) chunks /\
+    concat chunks = kept c o /\
+    pw = len chunks /\
+    pd + len (kept c o) = len (op_values o)).
+Print Assumptions C09_point_conservation.
+Check (C09_write_result_meets_spec : forall c w o,
+  fx (c_env c) = all_fixed -> Winv w -> max w = c_max c ->
+  (match o with Drain _ => False | _ => True end) -> values_nonempty o = true ->
+  exists w' pw pd, step (c_env c) w o = Ok (w', OWrite pw pd) /\ counts_ok c o pw pd = true).
+Print Assumptions C09_write_result_meets_spec.
+Check (C09_render_length : forall m, len (render m) = msg_len m).
+Print Assumptions C09_render_length.
+Check (C09_message_roundtrip : forall m, wf_msg m = true -> m_values m <> [] ->
+  parse_msg (render m) = Some m).
+Print Assumptions C09_message_roundtrip.
+Check (C09_emitted_message_roundtrip : forall c o chunks ch,
+  concat chunks = kept c o -> In ch chunks -> ch <> [] ->
+  wf_msg (expect c o (op_values o)) = true ->
+  parse_msg (render (expect c o ch)) = Some (expect c o ch)).
+Print Assumptions C09_emitted_message_roundtrip.
+Check (C09_spec_ok_on_model_partial : forall c, k_max c < two32 ->
+  ~ In OPanic (run_case c) /\ length (run_case c) = length (k_ops c) /\
+  forall a ps p, In (OPayloads a ps) (run_case c) -> In p ps ->
+    exists body, unframe (cfg_of impl_fixes c) p = Some body /\ p = frame (k_lp c) body).
+Print Assumptions C09_spec_ok_on_model_partial.
+Check (C09_framing_refuted_before_fix_drop : exists c ops, fx (c_env c) = {| fix_drop := false; fix_reject := true; fix_prefix := true |} /\
+    spec_check c ops (run_cfg c ops) = false /\
+    exists a p body, nth 3 (run_cfg c ops) OPanic = OPayloads a [p] /\ unframe c p = Some body /\
+                     parse_msg body = None /\ len body + 4 = 9).
+Print Assumptions C09_framing_refuted_before_fix_drop.
+Check (C09_framing_refuted_before_fix_reject : exists c ops, fx (c_env c) = {| fix_drop := true; fix_reject := false; fix_prefix := true |} /\
+    spec_check c ops (run_cfg c ops) = false /\
+    exists a p body, nth 2 (run_cfg c ops) OPanic = OPayloads a [p] /\ unframe c p = Some body /\
+                     parse_msg body = None /\ len body + 4 = 8).
+Print Assumptions C09_framing_refuted_before_fix_reject.
+Check (C09_total_refuted_before_fix_prefix : exists c ops, fx (c_env c) = {| fix_drop := true; fix_reject := true; fix_prefix := false |} /\
+    c_max c < two32 /\ In OPanic (run_cfg c ops)).
+Print Assumptions C09_total_refuted_before_fix_prefix.
+Check (C09_total_refuted_before_fix_drop : exists c ops, fx (c_env c) = {| fix_drop := false; fix_reject := true; fix_prefix := true |} /\
+    c_max c < two32 /\ In OPanic (run_cfg c ops)).
+Print Assumptions C09_total_refuted_before_fix_drop.
